@@ -34,6 +34,39 @@ theorem encodeList_eq (tight : Bool) (ns : List Node) :
   | nil => simp [encodeList, encSiblings]
   | cons n l ih => simp [encodeList, encSiblings, ih]
 
+/-- what follows the key's terminator inside a written structure -/
+def encTail (tight : Bool) (key value body : List Nat) : List Nat :=
+  if value.isEmpty && body.isEmpty then (if tight then [] else pad (3 + (key ++ [0]).length))
+  else pad (3 + (key ++ [0]).length) ++ value ++ (if body.isEmpty then [] else pad value.length ++ body)
+
+theorem encNode_eq (tight : Bool) (key value : List Nat) (text : Bool) (body : List Nat) :
+    encNode tight key value text body =
+      [2 * (4 + key.length + (encTail tight key value body).length),
+        (if text then value.length else 2 * value.length), (if text then 1 else 0)]
+      ++ (key ++ (0 :: encTail tight key value body)) := by
+  simp only [encNode, encTail, List.length_append, List.length_cons, List.length_nil]
+  have : ∀ x : Nat, 2 * (3 + (key.length + (0 + 1)) + x) = 2 * (4 + key.length + x) := by intro x; omega
+  simp [this]
+
+theorem encTail_decomp (tight : Bool) (key value body : List Nat) :
+    ∃ p1 p2 : List Nat, encTail tight key value body = p1 ++ (value ++ (p2 ++ body)) ∧
+      (p1.length = key.length % 2 ∨ (p1 = [] ∧ value = [] ∧ body = [] ∧ p2 = [])) ∧
+      ((p2.length = value.length % 2 ∧ body ≠ []) ∨ (p2 = [] ∧ body = [])) := by
+  have hp : (pad (3 + (key ++ [0]).length)).length = key.length % 2 := by
+    simp only [pad_length, List.length_append, List.length_cons, List.length_nil]; omega
+  by_cases hb : body = []
+  · subst hb
+    by_cases hv : value = []
+    · subst hv
+      cases tight
+      · exact ⟨pad (3 + (key ++ [0]).length), [], by simp [encTail], Or.inl hp, Or.inr ⟨rfl, rfl⟩⟩
+      · exact ⟨[], [], by simp [encTail], Or.inr ⟨rfl, rfl, rfl, rfl⟩, Or.inr ⟨rfl, rfl⟩⟩
+    · have : value.isEmpty = false := by simpa [List.isEmpty_iff] using hv
+      exact ⟨pad (3 + (key ++ [0]).length), [], by simp [encTail, this], Or.inl hp, Or.inr ⟨rfl, rfl⟩⟩
+  · have : body.isEmpty = false := by simpa [List.isEmpty_iff] using hb
+    exact ⟨pad (3 + (key ++ [0]).length), pad value.length, by simp [encTail, this], Or.inl hp,
+      Or.inl ⟨pad_length _, hb⟩⟩
+
 /-- the shape of one written structure -/
 theorem encNode_decomp (tight : Bool) (key value : List Nat) (text : Bool) (body : List Nat) :
     ∃ p1 p2 : List Nat,
@@ -43,38 +76,23 @@ theorem encNode_decomp (tight : Bool) (key value : List Nat) (text : Bool) (body
       (encNode tight key value text body).length = 4 + key.length + p1.length + value.length + p2.length + body.length ∧
       min (align2 key.length + 4) (encNode tight key value text body).length = 4 + key.length + p1.length ∧
       min (align2 value.length) (value.length + p2.length + body.length) = value.length + p2.length := by
-  by_cases hleaf : (value.isEmpty && body.isEmpty) = true
-  · have hv : value = [] := by
-      simp only [Bool.and_eq_true, List.isEmpty_iff] at hleaf; exact hleaf.1
-    have hb : body = [] := by
-      simp only [Bool.and_eq_true, List.isEmpty_iff] at hleaf; exact hleaf.2
-    subst hv hb
-    cases tight
-    · refine ⟨pad (3 + (key ++ [0]).length), [], ?_, ?_, ?_, ?_⟩
-      · simp [encNode]
-      · simp [encNode, pad_length]; omega
-      · simp [encNode, pad_length, align2_eq]; omega
-      · simp [align2]
-    · refine ⟨[], [], ?_, ?_, ?_, ?_⟩
-      · simp [encNode]
-      · simp [encNode]; omega
-      · simp [encNode, align2_eq]; omega
-      · simp [align2]
-  · by_cases hb : body.isEmpty = true
-    · have hb' : body = [] := List.isEmpty_iff.mp hb
-      subst hb'
-      refine ⟨pad (3 + (key ++ [0]).length), [], ?_, ?_, ?_, ?_⟩
-      · simp [encNode, hleaf]
-      · simp [encNode, hleaf, pad_length]; omega
-      · simp [encNode, hleaf, pad_length, align2_eq]; omega
-      · simp [align2_eq]
-    · refine ⟨pad (3 + (key ++ [0]).length), pad value.length, ?_, ?_, ?_, ?_⟩
-      · simp [encNode, hleaf, hb]
-      · simp [encNode, hleaf, hb, pad_length]; omega
-      · simp [encNode, hleaf, hb, pad_length, align2_eq]; omega
-      · have : body.length ≠ 0 := by
-          intro h; exact hb (List.isEmpty_iff.mpr (List.length_eq_zero_iff.mp h))
-        simp [pad_length, align2_eq]; omega
+  obtain ⟨p1, p2, ht, h1, h2⟩ := encTail_decomp tight key value body
+  have hlen : (encNode tight key value text body).length = 4 + key.length + (encTail tight key value body).length := by
+    rw [encNode_eq]; simp only [List.length_append, List.length_cons, List.length_nil]; omega
+  have htl : (encTail tight key value body).length = p1.length + value.length + p2.length + body.length := by
+    rw [ht]; simp only [List.length_append]; omega
+  refine ⟨p1, p2, ?_, by omega, ?_, ?_⟩
+  · rw [hlen]; conv => lhs; rw [encNode_eq]
+    rw [ht]
+  · rw [hlen, htl, align2_eq]
+    rcases h1 with h1 | ⟨h1, hv, hb, hp2⟩
+    · omega
+    · subst h1 hv hb hp2; simp only [List.length_nil]; omega
+  · rw [align2_eq]
+    rcases h2 with ⟨h2, hb⟩ | ⟨h2, hb⟩
+    · have : body.length ≠ 0 := fun h => hb (List.length_eq_zero_iff.mp h)
+      omega
+    · subst h2 hb; simp only [List.length_nil]; omega
 
 /-- the value-length convention of a written structure matches the one the parser applies at its level -/
 def Compat (vlt : Vlt) (text : Bool) (value : List Nat) : Prop :=
@@ -193,20 +211,226 @@ theorem items_encSiblings (vlt : Vlt) (tight : Bool) (ds : List ND)
         cases ds with
         | nil => exact absurd rfl hds
         | cons _ _ => rfl
-      simp only [hne]
+      simp only [hne, Bool.false_eq_true, if_false]
       obtain ⟨t, r, hp, h1, h2, h3, h4⟩ := parseTlv_encNode vlt tight d.key d.value d.text d.body
         (pad (ND.enc tight d).length ++ encSiblings (ds.map (ND.enc tight))) (encSiblings (ds.map (ND.enc tight))) off
         hd.1 hd.2 (Or.inr rfl)
       have h0 : (⟨off, ND.enc tight d ++ (pad (ND.enc tight d).length ++ encSiblings (ds.map (ND.enc tight)))⟩ : Sl).len ≠ 0 := by
         have := encNode_length_ge tight d.key d.value d.text d.body
         simp only [Sl.len, List.length_append, ND.enc]; omega
-      have hp' : parseTlv vlt ⟨off, ND.enc tight d ++ (if false = true then [] else pad (ND.enc tight d).length ++ encSiblings (ds.map (ND.enc tight)))⟩ = .ok (t, r) := by
-        simpa using hp
-      simp only [Bool.false_eq_true, if_false] at hp' ⊢
+      have hp' : parseTlv vlt ⟨off, ND.enc tight d ++ (pad (ND.enc tight d).length ++ encSiblings (ds.map (ND.enc tight)))⟩ = .ok (t, r) := hp
       rw [items_ok h0 hp']
       have hr : r = ⟨r.off, encSiblings (ds.map (ND.enc tight))⟩ := by
         cases r; simp only at h4; rw [h4]
       rw [hr, List.map_cons, ih hrest r.off]
       simp [Tlv.content, h1, h2, h3]
+
+/-! ### the whole resource read back -/
+
+/-- an event without the offsets: what was reported, not where it lies -/
+def Event.erase : Event → SEvent
+  | .versionInfo k f => .versionInfo k.ws (f.map (·.ws))
+  | .fileInfo k => .fileInfo k.ws
+  | .stringTable k => .stringTable k.ws
+  | .string k v => .string k.ws v.ws
+  | .var k v => .var k.ws v.ws
+  | .enter d => .enter d
+  | .exit d => .exit d
+
+theorem stripNul_ws (v : Sl) : (stripNul v).ws = stripTerminator v.ws := by
+  unfold stripNul stripTerminator
+  rcases List.eq_nil_or_concat v.ws with h | ⟨init, x, h⟩
+  · simp [h]
+  · rw [List.concat_eq_append] at h
+    have h1 : v.ws.getLast? = some x := by simp [h]
+    have h2 : v.ws.reverse = x :: init.reverse := by simp [h]
+    rw [h1, h2]
+    by_cases hx : x = 0
+    · subst hx
+      simp [h, Sl.take, Sl.len]
+    · have : (some x ≠ some 0) := by simpa using hx
+      rw [if_pos this]
+      split
+      · rename_i r heq; simp only [List.cons.injEq] at heq; exact absurd heq.1 hx
+      · rfl
+
+theorem flatMap_congr_of_map_eq {α β γ δ : Type} {c : α → γ} {f : β → γ} (F : α → List δ) (G : β → List δ) :
+    ∀ (l : List α) (ds : List β), l.map c = ds.map f →
+      (∀ a b, b ∈ ds → c a = f b → F a = G b) → l.flatMap F = ds.flatMap G := by
+  intro l
+  induction l with
+  | nil =>
+    intro ds h _
+    cases ds with
+    | nil => rfl
+    | cons _ _ => simp at h
+  | cons a l ih =>
+    intro ds h hFG
+    cases ds with
+    | nil => simp at h
+    | cons b ds =>
+      simp only [List.map_cons, List.cons.injEq] at h
+      simp only [List.flatMap_cons]
+      rw [hFG a b (List.mem_cons_self ..) h.1, ih ds h.2 (fun a' b' hb' => hFG a' b' (List.mem_cons_of_mem _ hb'))]
+
+theorem encode_mk (tight : Bool) (key value : List Nat) (text : Bool) (children : List Node) :
+    Spec.encode tight (.mk key value text children)
+      = encNode tight key value text (encSiblings (children.map (Spec.encode tight))) := by
+  rw [Spec.encode, encodeList_eq]
+
+theorem sl_eta (c : Sl) (ws : List Nat) (h : c.ws = ws) : c = ⟨c.off, ws⟩ := by
+  cases c; simp only at h; rw [h]
+
+/-- strings of one table -/
+theorem level_strings (tight : Bool) (c : Sl) (strs : List VStr)
+    (hc : c.ws = encodeList tight (strs.map VStr.node)) (hwf : ∀ s ∈ strs, s.wf = true) :
+    (flatStrings (items .words c)).map Event.erase
+      = strs.map (fun s => SEvent.string s.key (stripTerminator s.stored)) := by
+  have henc : encodeList tight (strs.map VStr.node)
+      = encSiblings ((strs.map (fun s => (⟨s.key, s.stored, true, []⟩ : ND))).map (ND.enc tight)) := by
+    rw [encodeList_eq, List.map_map, List.map_map]
+    congr 1
+  have hitems := items_encSiblings .words tight (strs.map (fun s => (⟨s.key, s.stored, true, []⟩ : ND)))
+    (by
+      intro d hd
+      obtain ⟨s, hs, rfl⟩ := List.mem_map.mp hd
+      exact ⟨hwf s hs, Or.inl rfl⟩) c.off
+  rw [← henc, ← hc, ← sl_eta c c.ws rfl] at hitems
+  have : (flatStrings (items .words c)).map Event.erase
+      = ((items .words c).map Tlv.content).map (fun p => SEvent.string p.1 (stripTerminator p.2.1)) := by
+    simp only [flatStrings, List.map_map]
+    apply List.map_congr_left
+    intro t _
+    simp [Event.erase, Tlv.content, stripNul_ws]
+  rw [this, hitems, List.map_map, List.map_map]
+  rfl
+
+/-- the string tables of a StringFileInfo block -/
+theorem level_tables (tight : Bool) (c : Sl) (ts : List VTable)
+    (hc : c.ws = encodeList tight (ts.map VTable.node)) (hwf : ∀ t ∈ ts, t.wf = true) :
+    (((items .zero c).map pTable).flatMap flatTable).map Event.erase = ts.flatMap VTable.events := by
+  have henc : encodeList tight (ts.map VTable.node)
+      = encSiblings ((ts.map (fun t => (⟨t.lang, [], true, encodeList tight (t.strings.map VStr.node)⟩ : ND))).map (ND.enc tight)) := by
+    rw [encodeList_eq, List.map_map, List.map_map]
+    congr 1
+  have hitems := items_encSiblings .zero tight
+    (ts.map (fun t => (⟨t.lang, [], true, encodeList tight (t.strings.map VStr.node)⟩ : ND)))
+    (by
+      intro d hd
+      obtain ⟨t, ht, rfl⟩ := List.mem_map.mp hd
+      have := hwf t ht
+      simp only [VTable.wf, Bool.and_eq_true] at this
+      exact ⟨this.1, rfl⟩) c.off
+  rw [← henc, ← hc, ← sl_eta c c.ws rfl, List.map_map] at hitems
+  rw [List.map_flatMap, List.flatMap_map]
+  refine flatMap_congr_of_map_eq _ _ _ _ hitems ?_
+  intro a t ht hct
+  simp only [Tlv.content, Function.comp, Prod.mk.injEq] at hct
+  obtain ⟨h1, _, h3⟩ := hct
+  have hw := hwf t ht
+  simp only [VTable.wf, Bool.and_eq_true, List.all_eq_true] at hw
+  simp only [flatTable, pTable, VTable.events, List.map_append, List.map_cons, List.map_nil, Event.erase, h1,
+    level_strings tight a.children t.strings h3 hw.2]
+
+/-- the vars of a VarFileInfo block -/
+theorem level_vars (tight : Bool) (c : Sl) (vs : List VVar)
+    (hc : c.ws = encodeList tight (vs.map VVar.node)) (hwf : ∀ x ∈ vs, x.wf = true) :
+    ((items .bytes c).map fun x => Event.var x.key x.value).map Event.erase
+      = vs.map (fun x => SEvent.var x.key x.value) := by
+  have henc : encodeList tight (vs.map VVar.node)
+      = encSiblings ((vs.map (fun x => (⟨x.key, x.value, false, []⟩ : ND))).map (ND.enc tight)) := by
+    rw [encodeList_eq, List.map_map, List.map_map]
+    congr 1
+  have hitems := items_encSiblings .bytes tight (vs.map (fun x => (⟨x.key, x.value, false, []⟩ : ND)))
+    (by
+      intro d hd
+      obtain ⟨x, hx, rfl⟩ := List.mem_map.mp hd
+      exact ⟨hwf x hx, Or.inl rfl⟩) c.off
+  rw [← henc, ← hc, ← sl_eta c c.ws rfl] at hitems
+  have : ((items .bytes c).map fun x => Event.var x.key x.value).map Event.erase
+      = ((items .bytes c).map Tlv.content).map (fun p => SEvent.var p.1 p.2.1) := by
+    simp only [List.map_map]
+    apply List.map_congr_left
+    intro t _
+    simp [Event.erase, Tlv.content]
+  rw [this, hitems, List.map_map, List.map_map]
+  rfl
+
+theorem kStringFileInfo_eq : kStringFileInfo = strStringFileInfo := by decide
+theorem kVarFileInfo_eq : kVarFileInfo = strVarFileInfo := by decide
+theorem kTranslation_eq : kTranslation = strTranslation := by decide
+
+/-- what is written for a block -/
+def blockND (tight : Bool) : VBlock → ND
+  | .stringInfo ts => ⟨kStringFileInfo, [], true, encodeList tight (ts.map VTable.node)⟩
+  | .varInfo vs => ⟨kVarFileInfo, [], true, encodeList tight (vs.map VVar.node)⟩
+
+/-- the blocks below the root -/
+theorem level_infos (tight : Bool) (c : Sl) (bs : List VBlock)
+    (hc : c.ws = encodeList tight (bs.map VBlock.node)) (hwf : ∀ b ∈ bs, b.wf = true) :
+    (((items .zero c).map pInfo).flatMap flatInfo).map Event.erase = bs.flatMap VBlock.events := by
+  have henc : encodeList tight (bs.map VBlock.node) = encSiblings ((bs.map (blockND tight)).map (ND.enc tight)) := by
+    rw [encodeList_eq, List.map_map, List.map_map]
+    congr 1
+    apply List.map_congr_left
+    intro b _
+    cases b <;> simp [blockND, VBlock.node, Spec.encode, ND.enc]
+  have hitems := items_encSiblings .zero tight (bs.map (blockND tight))
+    (by
+      intro d hd
+      obtain ⟨b, _, rfl⟩ := List.mem_map.mp hd
+      cases b
+      · exact ⟨by simp only [blockND]; decide, rfl⟩
+      · exact ⟨by simp only [blockND]; decide, rfl⟩) c.off
+  rw [← henc, ← hc, ← sl_eta c c.ws rfl, List.map_map] at hitems
+  rw [List.map_flatMap, List.flatMap_map]
+  refine flatMap_congr_of_map_eq _ _ _ _ hitems ?_
+  intro a b hb hct
+  have hw := hwf b hb
+  cases b with
+  | stringInfo ts =>
+    simp only [Tlv.content, Function.comp, Prod.mk.injEq, blockND] at hct
+    obtain ⟨h1, _, h3⟩ := hct
+    simp only [VBlock.wf, List.all_eq_true] at hw
+    have hk : a.key.ws = strStringFileInfo := by rw [h1, kStringFileInfo_eq]
+    simp only [flatInfo, pInfo, hk, if_true, flatKind, VBlock.events, List.map_append, List.map_cons, List.map_nil,
+      Event.erase, level_tables tight a.children ts h3 hw, kStringFileInfo_eq]
+  | varInfo vs =>
+    simp only [Tlv.content, Function.comp, Prod.mk.injEq, blockND] at hct
+    obtain ⟨h1, _, h3⟩ := hct
+    simp only [VBlock.wf, List.all_eq_true] at hw
+    have hk : a.key.ws = strVarFileInfo := by rw [h1, kVarFileInfo_eq]
+    have hne : strVarFileInfo ≠ strStringFileInfo := by decide
+    simp only [flatInfo, pInfo, hk, hne, if_true, if_false, flatKind, VBlock.events, List.map_append, List.map_cons,
+      List.map_nil, Event.erase, level_vars tight a.children vs h3 hw, kVarFileInfo_eq]
+
+/-- **round trip**: the flattened parse tree of a written resource, offsets erased, is the
+resource's event list -/
+theorem flat_encode (tight : Bool) (v : VInfo) (hwf : v.wf = true) (off : Nat) :
+    (flatRoots (pRoots ⟨off, v.encode tight⟩)).map Event.erase = v.events := by
+  simp only [VInfo.wf, Bool.and_eq_true, List.all_eq_true] at hwf
+  have henc : v.encode tight
+      = encSiblings ([(⟨v.key, v.value, false, encodeList tight (v.blocks.map VBlock.node)⟩ : ND)].map (ND.enc tight)) := by
+    simp [VInfo.encode, VInfo.node, Spec.encode, encSiblings, ND.enc]
+  have hitems := items_encSiblings .bytes tight
+    [(⟨v.key, v.value, false, encodeList tight (v.blocks.map VBlock.node)⟩ : ND)]
+    (by
+      intro d hd
+      simp only [List.mem_singleton] at hd
+      subst hd
+      exact ⟨hwf.1, Or.inl rfl⟩) off
+  rw [← henc] at hitems
+  unfold pRoots
+  cases hl : items .bytes ⟨off, v.encode tight⟩ with
+  | nil => rw [hl] at hitems; simp at hitems
+  | cons vi rest =>
+    rw [hl] at hitems
+    simp only [List.map_cons, List.map_nil, List.cons.injEq, Tlv.content, Prod.mk.injEq] at hitems
+    obtain ⟨⟨h1, h2, h3⟩, _⟩ := hitems
+    have hfix : (fixedSl vi.value).map (·.ws) = v.fixed := by
+      simp only [fixedSl, VInfo.fixed, Sl.len, h2]
+      split <;> simp [h2]
+    simp only [flatRoots, flatRoot, pRoot, VInfo.events, List.map_append, List.map_cons, List.map_nil, Event.erase,
+      h1, hfix, level_infos tight vi.children v.blocks h3 hwf.2, List.cons_append, List.nil_append]
 
 end Pelite.Version
